@@ -91,9 +91,12 @@ def run(repo, gen_dir):
               "filter: null families 2 / 30|28", items, ["C15"])
     vals["rfFam4"], vals["rfNullOff"], vals["rfFam6a"], vals["rfFam6b"] = (m.group(1), m.group(2), m.group(3), m.group(4)) if m else (0, 0, 0, 0)
     m = const(r"fn try_null_datalink.*?u32::from_ne_bytes", r, "filter: native-endian family", items, ["C15"])
-    m = const(r"fn extract_ipv4_info.*?packet\.len\(\) < (\d+).*?packet\[(\d+)\] != (\d+).*?packet\[0\] & 0x0F.*?saturating_mul\((\d+)\).*?tcp_offset\.saturating_add\((\d+)\)", r,
-              "filter: ipv4 min 20, proto at 9 = 6, ihl*4, +4", items, ["C15"])
-    vals["rfV4Min"], vals["rfV4ProtoOff"], vals["rfProto"], vals["rfIhlMul"], vals["rfPortBytes"] = m.groups() if m else (0, 0, 0, 0, 0)
+    m = const(r"fn extract_ipv4_info.*?packet\.len\(\) < (\d+).*?packet\[(\d+)\] != (\d+).*?packet\[0\] & 0x0F.*?saturating_mul\((\d+)\)\.max\((\d+)\).*?tcp_offset\.saturating_add\((\d+)\)", r,
+              "filter: ipv4 min 20, proto at 9 = 6, max(ihl*4, 20), +4", items, ["C15"])
+    vals["rfV4Min"], vals["rfV4ProtoOff"], vals["rfProto"], vals["rfIhlMul"], vals["rfIhlMin"], vals["rfPortBytes"] = m.groups() if m else (0, 0, 0, 0, 0, 0)
+    m = const(r"fn try_null_datalink.*?if packet\[0\] == (0x[0-9a-fA-F]+) && packet\[1\] == (0x[0-9a-fA-F]+) && packet\.len\(\) > (\d+) \{\s*return match packet\[4\] >> 4 \{\s*4 => extract_ipv4_info\(&packet\[4\.\.\]\),\s*6 => extract_ipv6_info\(&packet\[4\.\.\]\),", r,
+              "filter: loopback header 1e 00 by version nibble (before the family match)", items, ["C15"])
+    vals["rfNullSig0"], vals["rfNullSig1"], vals["rfNullSigGt"] = m.groups() if m else (0, 0, 0)
     m = const(r"fn extract_ipv6_info.*?packet\.len\(\) < (\d+).*?packet\[(\d+)\] != (\d+).*?packet\.len\(\) < (\d+)", r,
               "filter: ipv6 min 40, next header at 6 = 6, 44", items, ["C15"])
     vals["rfV6Min"], vals["rfV6NhOff"], vals["rfV6Proto"], vals["rfV6Need"] = m.groups() if m else (0, 0, 0, 0)
@@ -108,6 +111,9 @@ def run(repo, gen_dir):
     for c in ("http", "tls"):
         m = const(r"ip_start\.saturating_add\((\d+)\)", ph[c] or "", f"hash({c}): min length ip_start + 40", items, ["C18"])
         vals[f"ph{c.capitalize()}Min"] = m.group(1) if m else 0
+    for c in ("http", "tls"):
+        m = const(r"let ip_header_len = ihl\.saturating_mul\((\d+)\)\.max\((\d+)\);", ph[c] or "", f"hash({c}): ports at max(ihl*4, 20)", items, ["C18"])
+        vals[f"ph{c.capitalize()}IhlMul"], vals[f"ph{c.capitalize()}IhlMin"] = m.groups() if m else (0, 0)
     m = const(r"let \(lo, hi\) = if \(src_ip, src_port\) <= \(dst_ip, dst_port\)", ph["http"] or "", "hash(http): canonical endpoint order", items, ["C18"])
 
     def n(x):
